@@ -169,7 +169,12 @@ def run_case(case):
             kw = {}
             if case["delimiter"]:
                 kw["delimiter"] = case["delimiter"]
-            out = call_impl(load_csv, use, list(case["rank_cols"]), weight_col=case["weight_col"], id_col=case["id_col"], **kw)
+            if case["rank_cols"]:
+                out = call_impl(load_csv, use, list(case["rank_cols"]), weight_col=case["weight_col"], id_col=case["id_col"], **kw)
+            else:
+                # the documented default (every column other than id / weight): NOT passed, so that state carried
+                # in the default argument between two calls of one process would show
+                out = call_impl(load_csv, use, weight_col=case["weight_col"], id_col=case["id_col"], **kw)
             cols = case["cols"]
             names = sorted({c for r in case["rows"] for j, c in enumerate(r) if cols[j].startswith("r") and c != ""})
             nm = Names([NONE] + names)
